@@ -44,7 +44,7 @@ def generate(seed, tier):
         profile = rng.choice(["guarded", "guarded", "guarded", "nested", "multiassign", "multiassign", "discrete", "mixed", "symbolic", "counter", "delay", "abstract"])
         prog, feats, meta = G.generate(cs, profile)
         params, inits = G.instantiate_params(rng, meta, prog)
-        cfg = {"type_fp_iterations": rng.choice([1, 2, 3, 100, 100, 100])}
+        cfg = {"type_fp_iterations": rng.choice([0, 1, 2, 3, 100, 100, 100])}
         if rng.random() < 0.25:
             cfg["transform_categoricals"] = True
         if rng.random() < 0.15:
